@@ -99,6 +99,14 @@ def run(rep, tier, rng):
                         ("bind-int", al, tuple(a), tuple(bb)), nontrivial=any(a) and any(bb))
 
             def bmat_case(v, swap, kind):
+                if kind == "random":
+                    # the flag given positionally, as the AbstractAlgebra signature allows
+                    op_ = c.observe(lambda: A.get_binding_matrix(algs.fl(v), swap))
+                    add(f"check_bmat {al} {c.zlist(v)} {c.b(swap)} {algs.tol_for(v, d=1)} {obs_t(op_, algs.enc_mat)}",
+                        {"op": "bmat", "alg": al, "v": v, "swap": swap, "kind": "after-positional-flag", "obs": c.obs_json(op_),
+                         "python": algs.PRELUDE + f"A = {algs.alg_py(al)}\nv = np.array({v}, float)\nM = A.get_binding_matrix(v, {swap})\n"
+                         f"x = np.arange(1.0, {len(v)} + 1)\nassert np.allclose(M @ x, A.bind(v, x) if {swap} else A.bind(x, v))\n"},
+                        ("bmat-positional", al, tuple(v), swap), nontrivial=any(v))
                 o = c.observe(lambda: A.get_binding_matrix(algs.fl(v), swap_inputs=swap))
                 add(f"check_bmat {al} {c.zlist(v)} {c.b(swap)} {algs.tol_for(v, d=1)} {obs_t(o, algs.enc_mat)}",
                     {"op": "bmat", "alg": al, "v": v, "swap": swap, "kind": kind, "obs": c.obs_json(o)},
